@@ -122,7 +122,7 @@ def run(ctx):
         if not quick:
             model_check(ctx, "exh_ban3", "ConnGater", c01.cfg_text("ConnGater_exh", BanTicks=3, MaxTime=7), workers=16)
         # 2. schedules with the allowed states after every step
-        hs = generate(ctx, "gen", gen_text, workers=1, simulate=500 if quick else 5000, depth=90, seed=ctx.seed)
+        hs = generate(ctx, "gen", gen_text, workers=1, simulate=500 if quick else 12000, depth=90, seed=ctx.seed)
         hs_short = generate(ctx, "short", c01.cfg_text("ConnGater_short", DumpEvery=8 if quick else 1), workers=8, seed=ctx.seed)
         if len(hs) < 100 or len(hs_short) < 100:
             raise Inconclusive("too few schedules generated (%d, %d)" % (len(hs), len(hs_short)))
@@ -131,6 +131,21 @@ def run(ctx):
             raise Inconclusive("gen and short cfgs disagree on BanTicks")
         # 3. replay on the real gater / rate limiter
         res = run_replay(ctx, binp, hs + hs_short, opts_from_cfg(gen_text), "all")
+        if not quick:
+            # longer bans and a longer sweep period: other positions of the penalties relative to expiry and sweep
+            gen3 = c01.cfg_text("ConnGater_gen", BanTicks=3, MaxTime=7, SweepPeriods="{1, 2, 4}")
+            hs3 = generate(ctx, "gen_ban3", gen3, workers=1, simulate=3000, depth=100, seed=ctx.seed + 1)
+            res3 = run_replay(ctx, binp, hs3, opts_from_cfg(gen3), "ban3")
+            for k, v in res3.items():
+                if isinstance(v, int) and k != "max_step_skew_ms":
+                    res[k] = res.get(k, 0) + v
+            res["max_step_skew_ms"] = max(res["max_step_skew_ms"], res3["max_step_skew_ms"])
+            res["violations"] = (res.get("violations") or []) + (res3.get("violations") or [])
+            for k, v in (res3.get("violation_keys") or {}).items():
+                res["violation_keys"][k] = res["violation_keys"].get(k, 0) + v
+            for v in res3.get("violations") or []:
+                if isinstance(v.get("replay"), dict):
+                    v["replay"]["opts"] = dict(ban_ticks=3)
     finally:
         th.join()
     if "err" in box:
